@@ -8,10 +8,15 @@ AREA_T = T.oneof(T.enum(f"{SAP}:GeoBroadcastHST"), T.enum(f"{SAP}:GeoAnycastHST"
 AREA_V = T.rec(f"{SAP}:Area", a=T.int(0, 65535), b=T.int(0, 65535), angle=T.int(0, 65535),
                latitude=T.int(-2 ** 31, 2 ** 31 - 1), longitude=T.int(-2 ** 31, 2 ** 31 - 1))
 
-contract(f"{RT}:Router.gn_geometric_function_f", props=["C07", "C04", "C01"],
+contract(f"{RT}:Router.calculate_distance", props=["C07"], shapes={"coord1": T.tuple(T.float(), T.float()), "coord2": T.tuple(T.float(), T.float())},
+         returns=T.tuple(T.float(), T.float()),
+         ensures={"the_routers_planar_projection": "result[0] == proj_x(coord1[0], coord1[1], coord2[0], coord2[1]) and result[1] == proj_y(coord1[0], coord1[1], coord2[0], coord2[1])"},
+         **S)
+contract(f"{RT}:Router.gn_geometric_function_f", props=["C07", "C04", "C01"], opaque=["proj_x", "proj_y"],
          shapes={"self": ROUTER, "area_type": AREA_T, "area": AREA_V, "lat": T.int(-2 ** 31, 2 ** 31 - 1),
                  "lon": T.int(-2 ** 31, 2 ** 31 - 1)},
          ensures={"en_302_931_including_azimuth_rotation": "result == F_area(shape_of(area_type), area.a, area.b, area.angle, area.latitude, area.longitude, lat, lon)",
+                  "en_302_931_for_unrotated_areas": "implies(area.angle == 0, result == F_area(shape_of(area_type), area.a, area.b, 0, area.latitude, area.longitude, lat, lon))",
                   "zero_sized_is_outside": "implies(area.a == 0 or (area.b == 0 and shape_of(area_type) != 0), result < 0)"},
          canary={"always_inside": "result >= 0"}, **S)
 contract(f"{RT}:Router._compute_area_size_m2", props=["C07"], shapes={"area_type": AREA_T, "area": AREA_V},
